@@ -8,12 +8,11 @@
 use std::io::{BufRead, Write};
 use std::panic::{catch_unwind, AssertUnwindSafe};
 
-mod ops_mg64;
 mod util;
 
 type Handler = fn(&str, &[&str]) -> Option<String>;
 
-const HANDLERS: &[Handler] = &[ops_mg64::handle];
+include!("handlers.rs");
 
 fn main() {
     std::panic::set_hook(Box::new(|_| {}));
